@@ -308,32 +308,82 @@ theorem li_zero_length_witness :
   simp
 
 
-/-- [T] in the improper and proper cases (not all four end points on one line) the returned point
-is the *only* common point of the two segments. -/
-theorem li_single_unique (p1 p2 q1 q2 x y : Pt) (f : Bool)
-    (h : lineIntersection p1 p2 q1 q2 = some (.single x f))
-    (hnc : ¬ (orient p1 p2 q1 = .col ∧ orient p1 p2 q2 = .col ∧ orient q1 q2 p1 = .col ∧
-      orient q1 q2 p2 = .col))
-    (hy1 : SegMem y p1 p2) (hy2 : SegMem y q1 q2) : y = x := by
-  simp only [orient_col_iff] at hnc
+/-- [T] a single point answer is the *only* common point of the two segments
+(`S p ∩ S q = {x}`). -/
+theorem li_single_exact (p1 p2 q1 q2 x : Pt) (f : Bool)
+    (h : lineIntersection p1 p2 q1 q2 = some (.single x f)) (z : Pt) :
+    (SegMem z p1 p2 ∧ SegMem z q1 q2) ↔ z = x := by
   obtain ⟨hx1, hx2⟩ := li_single_on_both p1 p2 q1 q2 x f h
   rw [lineCoord_iff] at hx1 hx2
+  refine ⟨?_, fun e => by rw [e]; exact ⟨hx1, hx2⟩⟩
+  rintro ⟨hz1, hz2⟩
   revert h
-  refine li_cases p1 p2 q1 q2 (fun r => r = some (.single x f) → y = x) ?_ ?_ ?_ ?_ ?_ ?_
+  refine li_cases p1 p2 q1 q2 (fun r => r = some (.single x f) → z = x) ?_ ?_ ?_ ?_ ?_ ?_
   · intro _ h; cases h
   · intro _ _ h; cases h
   · intro _ _ h; cases h
-  · intro _ a b c d _; exact absurd ⟨a, b, c, d⟩ hnc
+  · intro _ a b c d h; exact col_single_exact a b c d h z hz1 hz2
   · intro _ h1 h2 h3 _ _
-    exact unique_common (nonparallel h1 h2 h3).1 hy1.cross_eq_zero hy2.cross_eq_zero
+    exact unique_common (nonparallel h1 h2 h3).1 hz1.cross_eq_zero hz2.cross_eq_zero
       hx1.cross_eq_zero hx2.cross_eq_zero
   · intro _ h1 h2 a _ _ _ _
-    exact unique_common (nonparallel h1 h2 (fun h => a h.1)).1 hy1.cross_eq_zero hy2.cross_eq_zero
+    exact unique_common (nonparallel h1 h2 (fun h => a h.1)).1 hz1.cross_eq_zero hz2.cross_eq_zero
       hx1.cross_eq_zero hx2.cross_eq_zero
 
-example (y : Pt) (h1 : SegMem y ⟨0, 0⟩ ⟨2, 0⟩) (h2 : SegMem y ⟨1, 0⟩ ⟨1, 1⟩) : y = ⟨1, 0⟩ :=
-  li_single_unique _ _ _ _ _ y _ ex_improper
-    (by norm_num [orient, cross]; simp) h1 h2
+example (z : Pt) (h1 : SegMem z ⟨0, 0⟩ ⟨2, 0⟩) (h2 : SegMem z ⟨1, 0⟩ ⟨1, 1⟩) : z = ⟨1, 0⟩ :=
+  (li_single_exact _ _ _ _ _ _ ex_improper z).mp ⟨h1, h2⟩
+
+/-- [T] a collinear answer is *exactly* the common part of the two segments
+(`S p ∩ S q = S (x, y)`); together with `li_collinear_nondegenerate_partial` this is the
+`→` direction of DESIGN's `li_collinear_iff`. -/
+theorem li_collinear_exact (p1 p2 q1 q2 x y : Pt)
+    (h : lineIntersection p1 p2 q1 q2 = some (.collinear x y)) (z : Pt) :
+    (SegMem z p1 p2 ∧ SegMem z q1 q2) ↔ SegMem z x y := by
+  revert h
+  refine li_cases p1 p2 q1 q2 (fun r => r = some (.collinear x y) →
+    ((SegMem z p1 p2 ∧ SegMem z q1 q2) ↔ SegMem z x y)) ?_ ?_ ?_ ?_ ?_ ?_
+  · intro _ h; cases h
+  · intro _ _ h; cases h
+  · intro _ _ h; cases h
+  · intro _ a b c d h; exact col_overlap_exact a b c d h z
+  · intro _ _ _ _ _ h
+    injection h with h; cases h
+  · intro _ _ _ _ _ _ _ h
+    injection h with h; cases h
+
+example : SegMem ⟨3/2, 3/2⟩ ⟨0, 0⟩ ⟨2, 2⟩ ∧ SegMem ⟨3/2, 3/2⟩ ⟨1, 1⟩ ⟨3, 3⟩ :=
+  (li_collinear_exact _ _ _ _ _ _ ex_collinear _).mpr
+    ⟨1/2, by norm_num, by norm_num, by norm_num, by norm_num⟩
+
+/-- [T] the `is_proper` flag is set exactly when the point is none of the four end points
+(interior to both segments). -/
+theorem li_proper_iff_not_endpoint (p1 p2 q1 q2 x : Pt) (f : Bool)
+    (h : lineIntersection p1 p2 q1 q2 = some (.single x f)) :
+    f = true ↔ (x ≠ p1 ∧ x ≠ p2 ∧ x ≠ q1 ∧ x ≠ q2) := by
+  obtain ⟨hx1, hx2⟩ := li_single_on_both p1 p2 q1 q2 x f h
+  rw [lineCoord_iff] at hx1 hx2
+  constructor
+  · intro hf
+    have hp := (li_proper_iff p1 p2 q1 q2 x f h).mp hf
+    simp only [Ne, orient_col_iff] at hp
+    obtain ⟨a, b, c, d⟩ := hp
+    refine ⟨?_, ?_, ?_, ?_⟩ <;> intro e <;> rw [e] at hx1 hx2
+    · exact c hx2.cross_eq_zero
+    · exact d hx2.cross_eq_zero
+    · exact a hx1.cross_eq_zero
+    · exact b hx1.cross_eq_zero
+  · intro hne
+    cases f with
+    | true => rfl
+    | false =>
+      rcases li_improper_endpoint p1 p2 q1 q2 x h with e | e | e | e
+      · exact absurd e hne.1
+      · exact absurd e hne.2.1
+      · exact absurd e hne.2.2.1
+      · exact absurd e hne.2.2.2
+
+example : (⟨1, 1⟩ : Pt) ≠ ⟨0, 0⟩ ∧ (⟨1, 1⟩ : Pt) ≠ ⟨2, 2⟩ ∧ (⟨1, 1⟩ : Pt) ≠ ⟨0, 2⟩ ∧ (⟨1, 1⟩ : Pt) ≠ ⟨2, 0⟩ :=
+  (li_proper_iff_not_endpoint _ _ _ _ _ _ ex_proper).mp rfl
 
 /-- [T] `line_intersection(p, q)` and `line_intersection(q, p)` agree: same class, equal single
 points (same flag), collinear overlaps equal up to direction (`LIEquiv`). -/
